@@ -3,7 +3,6 @@ package main
 import (
 	"bytes"
 	"fmt"
-	"regexp"
 	"strings"
 	"unicode/utf8"
 
@@ -96,7 +95,39 @@ func deepDepth(n int) any {
 	return v
 }
 
-var trailingCommaRe = regexp.MustCompile(`,( *)\}`)
+// stripTrailingCommas removes, outside of strings, each comma that is followed only by spaces and a
+// close brace
+func stripTrailingCommas(s string) string {
+	out := make([]byte, 0, len(s))
+	inStr := false
+	for i := 0; i < len(s); i++ {
+		b := s[i]
+		if inStr {
+			out = append(out, b)
+			if b == '\\' && i+1 < len(s) {
+				i++
+				out = append(out, s[i])
+			} else if b == '"' {
+				inStr = false
+			}
+			continue
+		}
+		if b == '"' {
+			inStr = true
+		}
+		if b == ',' {
+			j := i + 1
+			for j < len(s) && s[j] == ' ' {
+				j++
+			}
+			if j < len(s) && s[j] == '}' {
+				continue
+			}
+		}
+		out = append(out, b)
+	}
+	return string(out)
+}
 
 type chunkWriter struct {
 	bytes.Buffer
@@ -307,7 +338,7 @@ func suiteWrite(tier string, seed uint64, model string) *Report {
 						if align && strings.Contains(out, ",  ") {
 							// is the trailing comma of a ragged aligned row the only problem? remove the commas
 							// that are followed only by spaces and a close brace and parse again
-							fixed := trailingCommaRe.ReplaceAllString(out, "$1}")
+							fixed := stripTrailingCommas(out)
 							if v2, err2 := oj.Parse([]byte(fixed)); err2 == nil && normNums(Show(v2)) == normNums(expected) {
 								class = "pretty-align-trailing-comma"
 							}
